@@ -37,7 +37,8 @@ func emitJSON(f *os.File, m map[string]interface{}) {
 
 /* ------------------------------------------------------------------ C13: conversions */
 
-var legalNames = []string{"Homo_sapiens", "t.1", "A-b", "x9", "Mus|m", "sp#2", "K_", "z+1"}
+// (&, <, > and " are ordinary characters of a Newick or Nexus label; an XML writer has to escape them)
+var legalNames = []string{"Homo_sapiens", "t.1", "A-b", "x9", "Mus|m", "sp#2", "K_", "z+1", "R&D", "a<b", "c>d", "q\"r"}
 
 // a random tree with labels legal in the three formats, no comments, values from the palette
 func randomConvD(r *rand.Rand, pal *palette, maxTips int, id int) []dNode {
